@@ -1319,6 +1319,144 @@ func (g *vdb) singletonJoin() *vnode {
 	return j
 }
 
+// fixedRightJoin: a join / leftjoin whose second source is restricted to a fixed value of a join
+// column, the value taken from the first source's data, so that some rows of the first source
+// agree with it and others contradict it (selections against fixed values, with or without an
+// index on the join columns: temp index)
+func (g *vdb) fixedRightJoin() *vnode {
+	for range 6 {
+		x, y := g.tables[g.r.Intn(len(g.tables))], g.tables[g.r.Intn(len(g.tables))]
+		if x == y || len(x.rows) < 2 || len(y.rows) == 0 {
+			continue
+		}
+		var common []string
+		for _, c := range x.cols {
+			if y.colIndex(c.name) >= 0 {
+				common = append(common, c.name)
+			}
+		}
+		if len(common) == 0 {
+			continue
+		}
+		c := common[g.r.Intn(len(common))]
+		v := x.rows[g.r.Intn(len(x.rows))][x.colIndex(c)]
+		if g.r.Intn(3) == 0 {
+			v = y.rows[g.r.Intn(len(y.rows))][y.colIndex(c)]
+		}
+		a := &vnode{op: "table", tbl: x, cols: append([]vcol{}, x.cols...)}
+		yb := &vnode{op: "table", tbl: y, cols: append([]vcol{}, y.cols...)}
+		e := &vexpr{op: "is", kids: []*vexpr{vcolx(c), vconst(v)}}
+		if g.r.Intn(4) == 0 && v != EmptyStr {
+			e = &vexpr{op: "in", kids: []*vexpr{vcolx(c)}, vals: []Value{v}}
+		}
+		var b *vnode = &vnode{op: "where", kids: []*vnode{yb}, cols: yb.cols, expr: e}
+		if !g.valid(b) {
+			continue
+		}
+		// often join on few columns: drop the other common columns from the second source
+		if g.r.Intn(2) == 0 {
+			var drop []string
+			for _, cc := range common {
+				if cc != c && g.r.Intn(3) != 0 {
+					drop = append(drop, cc)
+				}
+			}
+			if len(drop) > 0 && len(drop) < len(b.cols) {
+				p := &vnode{op: "remove", kids: []*vnode{b}, list: drop}
+				for _, cc := range b.cols {
+					if !vhasStr(drop, cc.name) {
+						p.cols = append(p.cols, cc)
+					}
+				}
+				if g.valid(p) {
+					b = p
+				}
+			}
+		}
+		kind := []string{"leftjoin", "leftjoin", "join"}[g.r.Intn(3)]
+		if g.r.Intn(5) == 0 {
+			a, b = b, a
+		}
+		j := g.binary(a, b, kind)
+		if j == nil || !g.valid(j) {
+			continue
+		}
+		g.note("fixed-right-" + kind)
+		if u := g.unary(j, vunaryKinds[g.r.Intn(len(vunaryKinds))]); u != nil && g.r.Intn(3) == 0 && g.valid(u) {
+			return u
+		}
+		return j
+	}
+	return nil
+}
+
+// inListGroup: a table restricted by a multi-value in-list on one column, then projected on /
+// summarized by that column (alone or with others): the column has several values, the operator
+// above must still see each group once
+func (g *vdb) inListGroup() *vnode {
+	for range 6 {
+		t := g.tables[g.r.Intn(len(g.tables))]
+		if len(t.rows) < 2 {
+			continue
+		}
+		ci := g.r.Intn(len(t.cols))
+		var vals []Value
+		for range 2 + g.r.Intn(2) {
+			v := t.rows[g.r.Intn(len(t.rows))][ci]
+			dup := v == EmptyStr // no '' in lists (KF-C22-3)
+			for _, o := range vals {
+				if o.Equal(v) {
+					dup = true
+				}
+			}
+			if !dup {
+				vals = append(vals, v)
+			}
+		}
+		if len(vals) < 2 {
+			continue
+		}
+		tn := &vnode{op: "table", tbl: t, cols: append([]vcol{}, t.cols...)}
+		w := &vnode{op: "where", kids: []*vnode{tn}, cols: tn.cols,
+			expr: &vexpr{op: "in", kids: []*vexpr{vcolx(t.cols[ci].name)}, vals: vals}}
+		if !g.valid(w) {
+			continue
+		}
+		cols := []string{t.cols[ci].name}
+		if g.r.Intn(2) == 0 && len(t.cols) > 1 {
+			if o := t.cols[g.r.Intn(len(t.cols))].name; o != cols[0] {
+				cols = append(cols, o)
+				if g.r.Intn(2) == 0 {
+					cols[0], cols[1] = cols[1], cols[0]
+				}
+			}
+		}
+		var n *vnode
+		if g.r.Intn(2) == 0 {
+			n = &vnode{op: "project", kids: []*vnode{w}, list: cols}
+			for _, name := range cols {
+				c, _ := w.find(name)
+				n.cols = append(n.cols, c)
+			}
+		} else {
+			n = &vnode{op: "summarize", kids: []*vnode{w}, list: cols, aggs: []vagg{{col: "count", op: "count"}}}
+			for _, name := range cols {
+				c, _ := w.find(name)
+				n.cols = append(n.cols, c)
+			}
+			n.cols = append(n.cols, vcol{name: "count", typ: vtInt, lo: 0, hi: vBig})
+			if _, clash := w.find("count"); clash {
+				continue
+			}
+		}
+		if g.valid(n) {
+			g.note("inlist-group-" + n.op)
+			return n
+		}
+	}
+	return nil
+}
+
 // build generates a query with at most budget operators; every node is checked by parsing it
 func (g *vdb) build(budget int) *vnode {
 	if budget <= 0 || g.r.Intn(6) == 0 {
@@ -1336,6 +1474,10 @@ func (g *vdb) build(budget int) *vnode {
 		var n *vnode
 		if k := g.r.Intn(16); k == 0 && budget >= 2 {
 			n = g.singletonJoin()
+		} else if k == 2 && budget >= 2 {
+			n = g.fixedRightJoin()
+		} else if k == 3 && budget >= 2 {
+			n = g.inListGroup()
 		} else if k == 1 && budget >= 2 {
 			// union/intersect/minus of sources with different columns where the column the other
 			// side lacks is restricted to '' (what the missing column reads as)
